@@ -2,6 +2,8 @@
 
 package alignment
 
+import "github.com/biogo/biogo/alphabet"
+
 // Contracts for the deductive verifier in /verif (govc). Only compiled with -tags verif.
 
 // A column-stored alignment is well formed when it has at least one column (Rows() indexes column 0),
@@ -161,3 +163,197 @@ package alignment
 //@   loop 1 invariant c.Annotation == old(s.Annotation) && len(c.SubAnnotations) == old(len(s.SubAnnotations)) && (fresh(c.SubAnnotations) || old(len(s.SubAnnotations)) == 0)
 //@   loop 1 invariant forall r int :: 0 <= r && r < old(len(s.SubAnnotations)) ==> c.SubAnnotations[r] == old(s.SubAnnotations[r])
 //@   loop 1 writes fresh
+
+// Delete removes exactly row i from every column (and its row annotation); other rows keep their order.
+//@ func (*Seq).Delete
+//@   property C07
+//@   requires wf(s) && 0 <= i && i < len(s.Seq[0]) && len(s.SubAnnotations) == len(s.Seq[0])
+//@   ensures [shape]  len(s.Seq) == old(len(s.Seq)) && forall c int :: 0 <= c && c < len(s.Seq) ==> len(s.Seq[c]) == old(len(s.Seq[0])) - 1
+//@   ensures [before] forall c int, r int :: 0 <= c && c < len(s.Seq) && 0 <= r && r < i ==> s.Seq[c][r] == old(s.Seq[c][r])
+//@   ensures [after]  forall c int, r int :: 0 <= c && c < len(s.Seq) && i <= r && r < old(len(s.Seq[0])) - 1 ==> s.Seq[c][r] == old(s.Seq[c][r+1])
+//@   ensures [annotations] len(s.SubAnnotations) == old(len(s.SubAnnotations)) - 1
+//@   ensures [annotations-before] forall r int :: 0 <= r && r < i ==> s.SubAnnotations[r] == old(s.SubAnnotations[r])
+//@   ensures [annotations-after]  forall r int :: i <= r && r < len(s.SubAnnotations) ==> s.SubAnnotations[r] == old(s.SubAnnotations[r+1])
+//@   assigns s.Seq[*], s.Seq[*][*], s.SubAnnotations, s.SubAnnotations[*]
+//@   loop 1 assigns s.Seq[*][*]
+//@   loop 1 invariant 0 <= idx && idx <= len(cs) && cs == old(s.Seq) && s.Seq == old(s.Seq)
+//@   loop 1 invariant forall c int :: 0 <= c && c < len(cs) ==> arr(cs[c]) == arr(old(s.Seq[c])) && off(cs[c]) == off(old(s.Seq[c]))
+//@   loop 1 invariant forall c int :: 0 <= c && c < idx ==> len(cs[c]) == old(len(s.Seq[0])) - 1
+//@   loop 1 invariant forall c int :: idx <= c && c < len(cs) ==> cs[c] == old(s.Seq[c])
+//@   loop 1 invariant forall c int, r int :: 0 <= c && c < idx && 0 <= r && r < i ==> cs[c][r] == old(s.Seq[c][r])
+//@   loop 1 invariant forall c int, r int :: 0 <= c && c < idx && i <= r && r < old(len(s.Seq[0])) - 1 ==> cs[c][r] == old(s.Seq[c][r+1])
+//@   loop 1 invariant forall c int, r int :: idx <= c && c < len(cs) && 0 <= r && r < old(len(s.Seq[0])) ==> cs[c][r] == old(s.Seq[c][r])
+
+// RevComp mirrors the columns and complements every letter; the strand is negated, everything else is kept.
+//@ spec complementing(alpha alphabet.Alphabet, strand int) bool = alpha != nil && implements(alpha, alphabet.Complementor) && -1 <= strand && strand <= 1
+//@ func (*Seq).RevComp
+//@   property C05
+//@   requires wf(s) && complementing(s.Alpha, s.Strand) && forall c int :: 0 <= c && c < len(s.Seq) ==> arr(s.Seq[c]) != tabArr(s.Alpha)
+//@   ensures [shape]   s.Seq == old(s.Seq) && forall c int :: 0 <= c && c < len(s.Seq) ==> s.Seq[c] == old(s.Seq[c])
+//@   ensures [letters] forall c int, r int :: 0 <= c && c < len(s.Seq) && 0 <= r && r < len(s.Seq[0]) ==> s.Seq[c][r] == ctab(s.Alpha, old(s.Seq[len(s.Seq)-1-c][r]))
+//@   ensures [strand]  s.Strand == -old(s.Strand) && s.Offset == old(s.Offset) && s.Alpha == old(s.Alpha)
+//@   assigns s.Seq[*][*], s.Strand
+//@   loop 1 assigns s.Seq[*][*]
+//@   loop 1 invariant 0 <= i && j == len(rs)-1-i && i <= j+1 && rs == old(s.Seq) && len(comp) == 256 && arr(comp) == tabArr(s.Alpha)
+//@   loop 1 invariant forall b int :: 0 <= b && b < 256 ==> comp[b] == ctab(s.Alpha, b)
+//@   loop 1 invariant forall c int, r int :: 0 <= c && c < i && 0 <= r && r < len(rs[0]) ==> rs[c][r] == ctab(s.Alpha, old(s.Seq[len(rs)-1-c][r])) && rs[len(rs)-1-c][r] == ctab(s.Alpha, old(s.Seq[c][r]))
+//@   loop 1 invariant forall c int, r int :: i <= c && c <= j && 0 <= r && r < len(rs[0]) ==> rs[c][r] == old(s.Seq[c][r])
+//@   loop 1 decreases j - i + 1
+//@   loop 2 assigns s.Seq[*][*]
+//@   loop 2 invariant 0 <= idx && idx <= len(rs[0]) && 0 <= i && i < j && j == len(rs)-1-i && rs == old(s.Seq) && len(comp) == 256 && arr(comp) == tabArr(s.Alpha)
+//@   loop 2 invariant forall b int :: 0 <= b && b < 256 ==> comp[b] == ctab(s.Alpha, b)
+//@   loop 2 invariant forall c int, r int :: 0 <= c && c < i && 0 <= r && r < len(rs[0]) ==> rs[c][r] == ctab(s.Alpha, old(s.Seq[len(rs)-1-c][r])) && rs[len(rs)-1-c][r] == ctab(s.Alpha, old(s.Seq[c][r]))
+//@   loop 2 invariant forall c int, r int :: i < c && c < j && 0 <= r && r < len(rs[0]) ==> rs[c][r] == old(s.Seq[c][r])
+//@   loop 2 invariant forall r int :: 0 <= r && r < idx ==> rs[i][r] == ctab(s.Alpha, old(s.Seq[j][r])) && rs[j][r] == ctab(s.Alpha, old(s.Seq[i][r]))
+//@   loop 2 invariant forall r int :: idx <= r && r < len(rs[0]) ==> rs[i][r] == old(s.Seq[i][r]) && rs[j][r] == old(s.Seq[j][r])
+//@   loop 3 assigns s.Seq[*][*]
+//@   loop 3 invariant 0 <= idx && idx <= len(rs[0]) && 0 <= i && i == j && j == len(rs)-1-i && rs == old(s.Seq) && len(comp) == 256 && arr(comp) == tabArr(s.Alpha)
+//@   loop 3 invariant forall b int :: 0 <= b && b < 256 ==> comp[b] == ctab(s.Alpha, b)
+//@   loop 3 invariant forall c int, r int :: 0 <= c && c < i && 0 <= r && r < len(rs[0]) ==> rs[c][r] == ctab(s.Alpha, old(s.Seq[len(rs)-1-c][r])) && rs[len(rs)-1-c][r] == ctab(s.Alpha, old(s.Seq[c][r]))
+//@   loop 3 invariant forall r int :: 0 <= r && r < idx ==> rs[i][r] == ctab(s.Alpha, old(s.Seq[i][r]))
+//@   loop 3 invariant forall r int :: idx <= r && r < len(rs[0]) ==> rs[i][r] == old(s.Seq[i][r])
+
+// Delete on a quality alignment.
+//@ func (*QSeq).Delete
+//@   property C07
+//@   requires qwf(s) && 0 <= i && i < len(s.Seq[0]) && len(s.SubAnnotations) == len(s.Seq[0])
+//@   ensures [shape]  len(s.Seq) == old(len(s.Seq)) && forall c int :: 0 <= c && c < len(s.Seq) ==> len(s.Seq[c]) == old(len(s.Seq[0])) - 1
+//@   ensures [before] forall c int, r int :: 0 <= c && c < len(s.Seq) && 0 <= r && r < i ==> s.Seq[c][r] == old(s.Seq[c][r])
+//@   ensures [after]  forall c int, r int :: 0 <= c && c < len(s.Seq) && i <= r && r < old(len(s.Seq[0])) - 1 ==> s.Seq[c][r] == old(s.Seq[c][r+1])
+//@   ensures [annotations] len(s.SubAnnotations) == old(len(s.SubAnnotations)) - 1
+//@   ensures [annotations-before] forall r int :: 0 <= r && r < i ==> s.SubAnnotations[r] == old(s.SubAnnotations[r])
+//@   ensures [annotations-after]  forall r int :: i <= r && r < len(s.SubAnnotations) ==> s.SubAnnotations[r] == old(s.SubAnnotations[r+1])
+//@   assigns s.Seq[*], s.Seq[*][*], s.SubAnnotations, s.SubAnnotations[*]
+//@   loop 1 assigns s.Seq[*][*]
+//@   loop 1 invariant 0 <= idx && idx <= len(cs) && cs == old(s.Seq) && s.Seq == old(s.Seq)
+//@   loop 1 invariant forall c int :: 0 <= c && c < len(cs) ==> arr(cs[c]) == arr(old(s.Seq[c])) && off(cs[c]) == off(old(s.Seq[c]))
+//@   loop 1 invariant forall c int :: 0 <= c && c < idx ==> len(cs[c]) == old(len(s.Seq[0])) - 1
+//@   loop 1 invariant forall c int :: idx <= c && c < len(cs) ==> cs[c] == old(s.Seq[c])
+//@   loop 1 invariant forall c int, r int :: 0 <= c && c < idx && 0 <= r && r < i ==> cs[c][r] == old(s.Seq[c][r])
+//@   loop 1 invariant forall c int, r int :: 0 <= c && c < idx && i <= r && r < old(len(s.Seq[0])) - 1 ==> cs[c][r] == old(s.Seq[c][r+1])
+//@   loop 1 invariant forall c int, r int :: idx <= c && c < len(cs) && 0 <= r && r < old(len(s.Seq[0])) ==> cs[c][r] == old(s.Seq[c][r])
+
+
+// RevComp on a quality alignment: qualities travel with their letters.
+//@ func (*QSeq).RevComp
+//@   property C05
+//@   requires qwf(s) && complementing(s.Alpha, s.Strand) && forall c int :: 0 <= c && c < len(s.Seq) ==> arr(s.Seq[c]) != tabArr(s.Alpha)
+//@   ensures [shape]   s.Seq == old(s.Seq) && forall c int :: 0 <= c && c < len(s.Seq) ==> s.Seq[c] == old(s.Seq[c])
+//@   ensures [letters] forall c int, r int :: 0 <= c && c < len(s.Seq) && 0 <= r && r < len(s.Seq[0]) ==> s.Seq[c][r].L == ctab(s.Alpha, old(s.Seq[len(s.Seq)-1-c][r]).L) && s.Seq[c][r].Q == old(s.Seq[len(s.Seq)-1-c][r]).Q
+//@   ensures [strand]  s.Strand == -old(s.Strand) && s.Offset == old(s.Offset) && s.Alpha == old(s.Alpha)
+//@   assigns s.Seq[*][*], s.Strand
+//@   loop 1 assigns s.Seq[*][*]
+//@   loop 1 invariant 0 <= i && j == len(rs)-1-i && i <= j+1 && rs == old(s.Seq) && len(comp) == 256 && arr(comp) == tabArr(s.Alpha)
+//@   loop 1 invariant forall b int :: 0 <= b && b < 256 ==> comp[b] == ctab(s.Alpha, b)
+//@   loop 1 invariant forall c int, r int :: 0 <= c && c < i && 0 <= r && r < len(rs[0]) ==> rs[c][r].L == ctab(s.Alpha, old(s.Seq[len(rs)-1-c][r]).L) && rs[c][r].Q == old(s.Seq[len(rs)-1-c][r]).Q && rs[len(rs)-1-c][r].L == ctab(s.Alpha, old(s.Seq[c][r]).L) && rs[len(rs)-1-c][r].Q == old(s.Seq[c][r]).Q
+//@   loop 1 invariant forall c int, r int :: i <= c && c <= j && 0 <= r && r < len(rs[0]) ==> rs[c][r] == old(s.Seq[c][r])
+//@   loop 1 decreases j - i + 1
+//@   loop 2 assigns s.Seq[*][*]
+//@   loop 2 invariant 0 <= idx && idx <= len(rs[0]) && 0 <= i && i < j && j == len(rs)-1-i && rs == old(s.Seq) && len(comp) == 256 && arr(comp) == tabArr(s.Alpha)
+//@   loop 2 invariant forall b int :: 0 <= b && b < 256 ==> comp[b] == ctab(s.Alpha, b)
+//@   loop 2 invariant forall c int, r int :: 0 <= c && c < i && 0 <= r && r < len(rs[0]) ==> rs[c][r].L == ctab(s.Alpha, old(s.Seq[len(rs)-1-c][r]).L) && rs[c][r].Q == old(s.Seq[len(rs)-1-c][r]).Q && rs[len(rs)-1-c][r].L == ctab(s.Alpha, old(s.Seq[c][r]).L) && rs[len(rs)-1-c][r].Q == old(s.Seq[c][r]).Q
+//@   loop 2 invariant forall c int, r int :: i < c && c < j && 0 <= r && r < len(rs[0]) ==> rs[c][r] == old(s.Seq[c][r])
+//@   loop 2 invariant forall r int :: 0 <= r && r < idx ==> rs[i][r].L == ctab(s.Alpha, old(s.Seq[j][r]).L) && rs[i][r].Q == old(s.Seq[j][r]).Q && rs[j][r].L == ctab(s.Alpha, old(s.Seq[i][r]).L) && rs[j][r].Q == old(s.Seq[i][r]).Q
+//@   loop 2 invariant forall r int :: idx <= r && r < len(rs[0]) ==> rs[i][r] == old(s.Seq[i][r]) && rs[j][r] == old(s.Seq[j][r])
+//@   loop 3 assigns s.Seq[*][*]
+//@   loop 3 invariant 0 <= idx && idx <= len(rs[0]) && 0 <= i && i == j && j == len(rs)-1-i && rs == old(s.Seq) && len(comp) == 256 && arr(comp) == tabArr(s.Alpha)
+//@   loop 3 invariant forall b int :: 0 <= b && b < 256 ==> comp[b] == ctab(s.Alpha, b)
+//@   loop 3 invariant forall c int, r int :: 0 <= c && c < i && 0 <= r && r < len(rs[0]) ==> rs[c][r].L == ctab(s.Alpha, old(s.Seq[len(rs)-1-c][r]).L) && rs[c][r].Q == old(s.Seq[len(rs)-1-c][r]).Q && rs[len(rs)-1-c][r].L == ctab(s.Alpha, old(s.Seq[c][r]).L) && rs[len(rs)-1-c][r].Q == old(s.Seq[c][r]).Q
+//@   loop 3 invariant forall r int :: 0 <= r && r < idx ==> rs[i][r].L == ctab(s.Alpha, old(s.Seq[i][r]).L) && rs[i][r].Q == old(s.Seq[i][r]).Q
+//@   loop 3 invariant forall r int :: idx <= r && r < len(rs[0]) ==> rs[i][r] == old(s.Seq[i][r])
+
+// Reverse mirrors the columns (the column slices themselves are swapped) and clears the strand.
+//@ func (*Seq).Reverse
+//@   property C05
+//@   requires s != nil
+//@   ensures [shape]   len(s.Seq) == old(len(s.Seq)) && arr(s.Seq) == old(arr(s.Seq)) && off(s.Seq) == old(off(s.Seq))
+//@   ensures [columns] forall c int :: 0 <= c && c < len(s.Seq) ==> s.Seq[c] == old(s.Seq[len(s.Seq)-1-c])
+//@   ensures [strand]  s.Strand == 0 && s.Offset == old(s.Offset)
+//@   assigns s.Seq[*], s.Strand
+//@   loop 1 invariant 0 <= i && j == len(l)-1-i && i <= j+1 && l == old(s.Seq)
+//@   loop 1 invariant forall k int :: 0 <= k && k < i ==> l[k] == old(s.Seq[len(l)-1-k]) && l[len(l)-1-k] == old(s.Seq[k])
+//@   loop 1 invariant forall k int :: i <= k && k <= j ==> l[k] == old(s.Seq[k])
+//@   loop 1 decreases j - i + 1
+
+//@ func (*QSeq).Reverse
+//@   property C05
+//@   requires s != nil
+//@   ensures [shape]   len(s.Seq) == old(len(s.Seq)) && arr(s.Seq) == old(arr(s.Seq)) && off(s.Seq) == old(off(s.Seq))
+//@   ensures [columns] forall c int :: 0 <= c && c < len(s.Seq) ==> s.Seq[c] == old(s.Seq[len(s.Seq)-1-c])
+//@   ensures [strand]  s.Strand == 0 && s.Offset == old(s.Offset)
+//@   assigns s.Seq[*], s.Strand
+//@   loop 1 invariant 0 <= i && j == len(l)-1-i && i <= j+1 && l == old(s.Seq)
+//@   loop 1 invariant forall k int :: 0 <= k && k < i ==> l[k] == old(s.Seq[len(l)-1-k]) && l[len(l)-1-k] == old(s.Seq[k])
+//@   loop 1 invariant forall k int :: i <= k && k <= j ==> l[k] == old(s.Seq[k])
+//@   loop 1 decreases j - i + 1
+
+// ---- row and column views (C07) ----
+// A position pos of the alignment is column pos - Offset: Start() <= pos < End().
+//@ func (*Seq).Column
+//@   property C07
+//@   requires wf(s) && s.Offset <= pos && pos < s.Offset + len(s.Seq)
+//@   ensures [view] len(result) == len(s.Seq[0]) && forall r int :: 0 <= r && r < len(result) ==> result[r] == s.Seq[pos - s.Offset][r]
+//@   assigns nothing
+
+//@ func (*Seq).ColumnQL
+//@   property C07
+//@   requires wf(s) && s.Offset <= pos && pos < s.Offset + len(s.Seq)
+//@   ensures [view] len(result) == len(s.Seq[0]) && forall r int :: 0 <= r && r < len(result) ==> result[r].L == s.Seq[pos - s.Offset][r] && result[r].Q == seq.DefaultQphred
+//@   assigns fresh
+//@   loop 1 invariant 0 <= idx && idx <= len(s.Seq[0]) && len(c) == len(s.Seq[0]) && fresh(c)
+//@   loop 1 invariant forall r int :: 0 <= r && r < idx ==> c[r].L == s.Seq[pos - s.Offset][r] && c[r].Q == seq.DefaultQphred
+
+//@ spec inRow(s *Seq, i int, row int) bool = wf(s) && s.Offset <= i && i < s.Offset + len(s.Seq) && 0 <= row && row < len(s.Seq[0])
+//@ func (Row).At
+//@   property C07
+//@   requires inRow(r.Align, i, r.Row)
+//@   ensures [view] result.L == r.Align.Seq[i - r.Align.Offset][r.Row] && result.Q == seq.DefaultQphred
+//@   assigns nothing
+
+//@ func (Row).Set
+//@   property C07
+//@   requires inRow(r.Align, i, r.Row)
+//@   ensures [cell]  r.Align.Seq[i - r.Align.Offset][r.Row] == l.L && result == nil
+//@   ensures [other-rows] forall k int :: 0 <= k && k < len(r.Align.Seq[0]) && k != r.Row ==> r.Align.Seq[i - r.Align.Offset][k] == old(r.Align.Seq[i - r.Align.Offset][k])
+//@   ensures [other-columns] forall c int, k int :: 0 <= c && c < len(r.Align.Seq) && c != i - r.Align.Offset && 0 <= k && k < len(r.Align.Seq[0]) ==> r.Align.Seq[c][k] == old(r.Align.Seq[c][k])
+//@   assigns r.Align.Seq[*][*]
+
+// The letter seen through the row view equals the entry of the column view at the same position.
+//@ func verifLemmaRowColumnAgree
+//@   property C07
+//@   lemma
+//@   requires inRow(s, pos, row)
+//@   ensures a == b && a == c
+func verifLemmaRowColumnAgree(s *Seq, pos, row int) (a, b, c alphabet.Letter) {
+	return Row{Align: s, Row: row}.At(pos).L, s.Column(pos, true)[row], s.ColumnQL(pos, true)[row].L
+}
+
+//@ func (*QSeq).ColumnQL
+//@   property C07
+//@   requires qwf(s) && s.Offset <= pos && pos < s.Offset + len(s.Seq)
+//@   ensures [view] len(result) == len(s.Seq[0]) && forall r int :: 0 <= r && r < len(result) ==> result[r] == s.Seq[pos - s.Offset][r]
+//@   assigns nothing
+
+//@ spec inQRow(s *QSeq, i int, row int) bool = qwf(s) && s.Offset <= i && i < s.Offset + len(s.Seq) && 0 <= row && row < len(s.Seq[0])
+//@ func (QRow).At
+//@   property C07
+//@   requires inQRow(r.Align, i, r.Row)
+//@   ensures [view] result == r.Align.Seq[i - r.Align.Offset][r.Row]
+//@   assigns nothing
+
+//@ func (QRow).Set
+//@   property C07
+//@   requires inQRow(r.Align, i, r.Row)
+//@   ensures [cell]  r.Align.Seq[i - r.Align.Offset][r.Row] == l && result == nil
+//@   ensures [other-rows] forall k int :: 0 <= k && k < len(r.Align.Seq[0]) && k != r.Row ==> r.Align.Seq[i - r.Align.Offset][k] == old(r.Align.Seq[i - r.Align.Offset][k])
+//@   ensures [other-columns] forall c int, k int :: 0 <= c && c < len(r.Align.Seq) && c != i - r.Align.Offset && 0 <= k && k < len(r.Align.Seq[0]) ==> r.Align.Seq[c][k] == old(r.Align.Seq[c][k])
+//@   assigns r.Align.Seq[*][*]
+
+//@ func verifLemmaQRowColumnAgree
+//@   property C07
+//@   lemma
+//@   requires inQRow(s, pos, row)
+//@   ensures a == b
+func verifLemmaQRowColumnAgree(s *QSeq, pos, row int) (a, b alphabet.QLetter) {
+	return QRow{Align: s, Row: row}.At(pos), s.ColumnQL(pos, true)[row]
+}
